@@ -115,6 +115,42 @@ func c02Programs(tier string) []*Spec {
 			}
 		}
 	}
+	// the output fails at the k-th write (environment answer): the same single-call histories around a render error
+	for _, rf := range []string{"auto", "manual"} {
+		for _, k := range []int{1, 2} {
+			for _, a := range c02Alphabet {
+				sp := &Spec{Name: fmt.Sprintf("c02-failwrite@%d-%s", k, a.String()), Refresh: rf, Q: -1, FailWrite: k}
+				sp.Bars = []BarSpec{{Total: 3, Pre: []DecorSpec{{Ewma: true, Listen: true, Sync: true, Widths: []int{2}}}}, {Total: 1, Pre: []DecorSpec{syncD(3)}}, {Total: 1}}
+				sp.Main = []Op{{K: "add", B: 0}}
+				ops := []Op{a}
+				if rf == "manual" {
+					ops = append(ops, Op{K: "refresh"}, Op{K: "refresh"}, Op{K: "refresh"})
+				}
+				sp.Clients = [][]Op{ops}
+				sp.Late = c02Late
+				out = append(out, sp)
+			}
+		}
+	}
+	// a queued bar with width-synchronised decorators takes over from its predecessor while other bars are pushed back
+	for _, rf := range []string{"auto", "manual"} {
+		sp := &Spec{Name: "c02-queued-sync", Refresh: rf, Q: -1}
+		sp.Bars = []BarSpec{{Total: 1, Pre: []DecorSpec{syncD(2)}}, {Total: 2, Pre: []DecorSpec{syncD(3)}}, {Total: 1, After: 1, Pre: []DecorSpec{syncD(4)}}}
+		sp.Main = []Op{{K: "add", B: 0}, {K: "add", B: 1}, {K: "add", B: 2}}
+		ops := []Op{{K: "incr", B: 0, N: 1}}
+		if rf == "manual" {
+			ops = append(ops, Op{K: "refresh"}, Op{K: "refresh"}, Op{K: "refresh"}, Op{K: "refresh"})
+		} else {
+			ops = append(ops, Op{K: "barwait", B: 0}, Op{K: "sleep", N: 250})
+		}
+		ops = append(ops, Op{K: "incr", B: 2, N: 1}, Op{K: "incr", B: 1, N: 2})
+		if rf == "manual" {
+			ops = append(ops, Op{K: "refresh"}, Op{K: "refresh"}, Op{K: "refresh"})
+		}
+		sp.Clients = [][]Op{ops}
+		sp.Late = c02Late
+		out = append(out, sp)
+	}
 	// a priority change addressed to a bar that has already been dropped from the container
 	for _, rf := range []string{"auto", "manual"} {
 		for _, lazy := range []bool{false, true} {
